@@ -263,6 +263,20 @@ def model_cases(rng, names, per):
                 if tag not in EXACT and n == 1 and not ops[0][1].startswith("T"):
                     ops[0] = (ops[0][0], "T0")
                 out.append((tag, names[tag], ops))
+    # operand patterns for which the model also predicts the REGISTERS of the emitted chain (Spec.emitOpreduceCode / emitCompreduceCode):
+    # all operands in registers; last operand an immediate; (arithmetic) immediates at the odd positions
+    for tag in sorted(names):
+        for n in range(2, 7):
+            def val(i):
+                if tag in EXACT:
+                    return str(pick(rng, D_INTS)) if rng.chance(3, 4) else ("T%d" % i if tag in ("ADD", "SUBTRACT", "MULTIPLY") else pick(rng, ["nil", "true", "false"]))
+                return "T%d" % i
+            imm = lambda: str(pick(rng, [0, 1, 2, 3, 127, -128, -1, 5]))
+            pats = [[("v", val(i)) for i in range(n)],
+                    [("v", val(i)) for i in range(n - 1)] + [("c", imm())],
+                    [("v", val(i)) if i % 2 == 0 else ("c", imm()) for i in range(n)]]
+            for ops in pats:
+                out.append((tag, names[tag], ops))
     return out
 
 
